@@ -256,4 +256,32 @@ theorem cdReadEntries_add : ∀ (es : List (Bytes × StoredValue)) (node ext : B
       rw [this]; rfl
 end
 
+/-! ### whole documents -/
+
+theorem cdAddDoc_ext : ∀ (fvs : List (BitVec 32 × StoredValue)) (node : Bytes),
+    ∃ r, (cdAddDoc node fvs).1 = node ++ r
+  | [], node => ⟨[], by simp [cdAddDoc]⟩
+  | (f, v) :: rest, node => by
+    obtain ⟨r1, h1⟩ := cdAdd_ext v node
+    obtain ⟨r2, h2⟩ := cdAddDoc_ext rest (cdAdd node v).1
+    exact ⟨r1 ++ r2, by simp only [cdAddDoc]; rw [h2, h1, List.append_assoc]⟩
+
+theorem cdReadDoc_add : ∀ (fvs : List (BitVec 32 × StoredValue)) (node ext : Bytes) (fuel : Nat),
+    (∀ fv ∈ fvs, depthV fv.2 ≤ fuel) → (cdAddDoc node fvs).1.length < 4294967296 →
+    cdReadDoc fuel ((cdAddDoc node fvs).1 ++ ext) (cdAddDoc node fvs).2 = some fvs
+  | [], node, ext, fuel, _, _ => by simp [cdAddDoc, cdReadDoc]
+  | (f, v) :: rest, node, ext, fuel, hd, hb => by
+    obtain ⟨r, hr⟩ := cdAddDoc_ext rest (cdAdd node v).1
+    have hb1 : (cdAdd node v).1.length < 4294967296 := by
+      simp only [cdAddDoc] at hb
+      rw [hr, List.length_append] at hb; omega
+    simp only [cdAddDoc, cdReadDoc]
+    have hv := cdRead_add v node (r ++ ext) fuel (hd (f, v) (List.mem_cons_self ..)) hb1
+    rw [hr, List.append_assoc, hv]
+    simp only [Option.bind_some]
+    have := cdReadDoc_add rest (cdAdd node v).1 ext fuel
+      (fun fv h => hd fv (List.mem_cons_of_mem _ h)) (by simpa [cdAddDoc] using hb)
+    rw [hr, List.append_assoc] at this
+    rw [this]; rfl
+
 end TantivyModel.Store
